@@ -312,13 +312,126 @@ def case_rate_fetch(rng, big):
     return Case(ops=ops, tag="rate-fetch")
 
 
+def case_interleave(rng, big):
+    """STOREs, streamed FETCHes and failing proofs of work from the same address(es) inside one 30 s window: the three
+    per-address histories (store slots, fetch slots, PoW failures) must not disturb one another"""
+    d = rng.choice([0, 0, 3, 4])
+    ops = [cfg(pow=d, cap=64)]
+    addrs = rng.choice([[1], [1], [1, 2]])
+    serial = [0]
+    state = {"now": 0}
+    stores = {a: [] for a in addrs}     # generator-side guesses, only to aim the advances
+    fetches = {a: [] for a in addrs}
+
+    def store(a, good=True):
+        serial[0] += 1
+        p = b"I%d-" % serial[0] + rnd_payload(rng, 2)
+        extra = []
+        if d > 0:
+            if good:
+                nonce = find_nonce(p, len(p), b"", lambda z: z >= d, rng.randrange(1 << 16))
+            else:
+                nonce = find_nonce(p, len(p), b"", lambda z: z < d, rng.randrange(1 << 16))
+            extra.append(b"STORE-POW:" + str(nonce).encode())
+        if rng.random() < 0.3:
+            extra.append(b"TOKEN:" + (b"x%d" % serial[0]))
+        ops.append(req(a, store_lines(rng, len(p), extra), p))
+        stores[a].append(state["now"])
+
+    def fetch(a):
+        lines = [b"COMMAND:FETCH", (b"MANIFEST:", "s1"), b"STREAM:" + rng.choice([b"client", b"1", b"yes"])]
+        if rng.random() < 0.3:
+            lines.append(b"TOKEN:" + (b"y%d" % len(ops)))
+        rng.shuffle(lines)
+        ops.append(req(a, lines))
+        fetches[a].append(state["now"])
+
+    def adv(ns):
+        ops.append(f"adv {ns}")
+        state["now"] += ns
+
+    a = addrs[0]
+    store(a)                                    # s1: the chunk every FETCH asks for (uses one STORE slot of `a`)
+    script = rng.choice(["F12-S-F12", "F12-S-F12", "S6-F13", "alternate", "edge", "powfail", "random", "random"])
+    if script == "powfail" and d == 0:
+        script = "F12-S-F12"
+    if script == "F12-S-F12":
+        for _ in range(12):
+            fetch(a)
+        if rng.random() < 0.5:
+            adv(rng.choice([1, SECOND, 5 * SECOND]))
+        store(a)
+        for _ in range(rng.choice([1, 3, 12])):
+            fetch(a)
+    elif script == "S6-F13":
+        for _ in range(6):
+            store(a)
+        for _ in range(13):
+            fetch(a)
+        store(a)
+        fetch(a)
+    elif script == "alternate":
+        for i in range(rng.randint(16, 30)):
+            (store if i % 3 == 0 else fetch)(rng.choice(addrs))
+            if rng.random() < 0.1:
+                adv(rng.choice([1, SECOND]))
+    elif script == "edge":
+        for _ in range(12):
+            fetch(a)
+        store(a)
+        first = fetches[a][0]
+        adv(first + 30 * SECOND + rng.choice([-1, 0, 1]) - state["now"])
+        fetch(a)
+        store(a)
+        fetch(a)
+        adv(1)
+        fetch(a)
+    elif script == "powfail":
+        # failing proofs use up STORE slots and bump the failure counter (third failure inside 120 s: LOCKED code);
+        # an accepted STORE clears the failure counter -- and nothing else
+        for _ in range(8):
+            fetch(a)
+        store(a, good=False)
+        store(a, good=False)
+        for _ in range(4):
+            fetch(a)
+        store(a, good=True)
+        for _ in range(3):
+            fetch(a)
+        store(a, good=False)
+        store(a, good=False)
+        if len(addrs) > 1:
+            store(addrs[1], good=False)
+            fetch(addrs[1])
+        adv(rng.choice([30 * SECOND + 1, 119 * SECOND, 121 * SECOND]))
+        store(a, good=False)
+        store(a, good=True)
+        fetch(a)
+    else:
+        n = rng.randint(25, 45) if not big else rng.randint(60, 110)
+        for _ in range(n):
+            r = rng.random()
+            b = rng.choice(addrs)
+            if r < 0.12:
+                hist = fetches[b] if rng.random() < 0.6 else stores[b]
+                adv(_advance_to_edge(rng, state["now"], hist))
+            elif r < 0.40:
+                store(b, good=(d == 0 or rng.random() < 0.7))
+            else:
+                fetch(b)
+    ops.append(req(250, [b"COMMAND:LIST"]))
+    return Case(ops=ops, tag="interleave")
+
+
 def generate(ctx, budget):
     out = []
     rng = ctx.rng
     for i in range(budget):
         big = ctx.tier == "thorough" and i % 4 == 0
-        k = i % 9
-        if k == 8:
+        k = i % 10
+        if k == 9:
+            out.append(case_interleave(rng, big))
+        elif k == 8:
             out.append(case_width(rng, big))
         elif k == 0:
             out.append(case_size(rng, big))
@@ -360,7 +473,7 @@ def spec() -> Spec:
         budget={"quick": 144, "thorough": 1600},
         search_budget={"quick": 500, "thorough": 6000},
         per_case_timeout=90.0,
-        rule="9 shapes in rotation: integer-width probes (TTL and PAYLOAD-LENGTH values k*2^32+t, k*2^31+t, 2^16+t, 2^8+t, 2^40+t, 2^63+t with t at the window / cap edges, 2^63-1..2^64, with leading zeros / sign / blanks),  payload sizes around a lowered cap (cap-1, cap, cap+1, 0, 2^32..2^64, lying lengths, duplicate "
+        rule="10 shapes in rotation: interleaved STOREs / streamed FETCHes / failing proofs of work from the same address(es) inside one window (F x12, S, F x12; S x6, F x13; alternating; around first-fetch + 30 s -1/0/+1 ns; PoW failures and the LOCKED counter; a second address),  integer-width probes (TTL and PAYLOAD-LENGTH values k*2^32+t, k*2^31+t, 2^16+t, 2^8+t, 2^40+t, 2^63+t with t at the window / cap edges, 2^63-1..2^64, with leading zeros / sign / blanks),  payload sizes around a lowered cap (cap-1, cap, cap+1, 0, 2^32..2^64, lying lengths, duplicate "
              "PAYLOAD-LENGTH; the body of an oversized STORE is withheld: TOO_LARGE must come without it), TTL texts at the window edges and at the int64 wrap, "
              "store PoW nonces (valid; valid for the raw path / another size / another payload / one bit short; missing; malformed; "
              "lock-out counter), STORE sequences from 1-3 source addresses with varying TOKEN headers and clock advances aimed at "
